@@ -24,26 +24,26 @@ PROP = dict(
                "which no code ever sets; an empty node accepts any first block; a 16-bit window collision moves the estimate past the fork point.",
     lean_modules=["Saito.Props.C15"],
     suites=["forkid"],
-    # deliveries after a parent-less block went through add_block's main path (pinned orphan branch) are compared but not
-    # counted: there the real verdict of Block::validate depends on the missing parent, which the chain model's oracle bit cannot express
-    relevant=lambda op, a, b: not op.endswith(" dirty"),
-    nontrivial=lambda op, a: (op.startswith("pair") and _pair_nontrivial(a)) or (op.startswith("deliver") and ("queue=[]" not in a or op.endswith(" dirty"))),
+    # every line is relevant, also deliveries after a parent-less block went through add_block's main path (pinned orphan branch):
+    # the chain model's oracle bit okNoParent (measured with node::validates_without_parent) expresses the real verdict there
+    relevant=lambda op, a, b: True,
+    nontrivial=lambda op, a: (op.startswith("pair") and _pair_nontrivial(a)) or (op.startswith("deliver") and ("queue=[]" not in a or op.endswith(" parentless-history"))),
     rule="(a) fork-id level: one real trunk chain of 113 (quick) / 117 (thorough) blocks and real branches forking off at 13 (quick) / 32 (thorough) points "
          "around the checkpoints (0,8,9,10,19,20,29,44,49,59,74,99,…) plus an unrelated chain and the committed collision pair; every combination of "
          "requester length x peer length from the sets {1,2,9,10,11,19,20,21,…,110,111} in both roles; the real generate_fork_id on a real node holding "
          "exactly the requester's blocks, the real generate_last_shared_ancestor on a real node holding exactly the peer's blocks; compared with the model "
-         "(fork id bytes, estimate) and with the harness's own fork point / collision check. (b) protocol level: requester empty / shorter / forked, peer "
+         "(fork id bytes, estimate) and with the harness's own fork point / collision check. (a') the same calls on a peer that first held the REQUESTER's fork as its longest chain and then reorganised onto its own longer fork (its ring items hold the requester's block first): the answer must equal the model's, which sees the peer's longest chain only (op token `side`). (b) protocol level: requester empty / shorter / forked, peer "
          "longer by 1..3 (exhaustive depth-first enumeration of ALL schedules of message deliveries and fetch completions, also of the three inter-thread "
          "channels for the smallest pairs; capped at 2500 (quick) / 20000 (thorough) schedules per pair, the evidence says which pairs were exhausted), and "
          "lengths 8..31 around the checkpoints with random schedules, FIFO and unordered links, fetch batch 1/2/10, with and without the real handshake; "
-         "both values of initial_loading_completed. non-trivial = pair whose estimate is a checkpoint above 0 or that has a window collision; delivery "
-         "that left a block queued for retry or happened after a parent-less block was stored",
+         "both values of initial_loading_completed; pairs in which the peer holds the requester's fork as an older side chain (fork lengths 6..21, fork point / tips straddling the checkpoints 10, 20, 30; in-order and random schedules). A consensus handler that does not return is answered `stall` (child process killed after 2.5 s, the case is resumed after that schedule). non-trivial = pair whose estimate is a checkpoint above 0 or that has a window collision; delivery "
+         "that left a block queued for retry or happened at/after a parent-less block went through add_block (token `parentless-history`, statistics only)",
     assumptions=[
         "chains from genesis, shorter than genesis_period (no purge, no ring wrap); block ids start at 1",
         "a block hash determines its height and its ancestors (heightInHash, prefixClosed: idealised hash function)",
         "noWindowCollision: the hypothesis of ancestor_sound; the evidence histogram forkid:*:window-collision counts how often real chain pairs violate it "
         "(only the ground pair of corpus/C15/collision.json in these runs; expected rate about 16/65536 per pair)",
         "the peer is honest and serves every block it announced; one peer; no timer events (no reconnection, no periodic re-request)",
-        "deliveries marked `dirty` (after a parent-less block was stored by the pinned orphan branch) are outside the chain model's validity oracle",
+        "validity of a block handed to add_block while its parent is unknown is an oracle bit (okNoParent, measured by running the real Block::validate on a scratch node without the parent)",
     ],
 )
